@@ -1,4 +1,4 @@
-import Pcore.Proofs.FormatParse
+import Pcore.Proofs.FormatUnparse
 import Pcore.Proofs.FormatContainer
 import Pcore.Generated.FormatLetters
 /-!
@@ -21,7 +21,9 @@ Full statement / proved / missing
                          whose arm formats = the literal handed to UnsupportedFormat = the letters the model formats;
                          letters handed over to the Float/Integer method are formatted there (`decide` on the table).
 * `C20_directive_go`   — every directive `parseFormat` accepts is a directive Go's fmt parses to the same verb, width,
-                         precision and flags once the delimiter flags are filtered out (`GoOK`), numbers ≤ fmt's limit.
+                         precision and flags once the delimiter flags are filtered out, numbers ≤ fmt's limit; and so
+                         are the format strings the float path derives from it with `unParse` (`WithoutWidth`,
+                         `ReplaceFormatChar`): `GoOK` = every format string handed to fmt is a directive fmt understands.
 * `C20_total`          — total by construction, and no Go fault/`%!` marker is reachable: the result is `text` or
                          `reported`; for per-type format maps of any depth `C20_total_map`.  Full statement
                          `C20_total_full` (without fmt's number limit) is FALSE: `C20_total_fails_number_limit`
@@ -75,6 +77,15 @@ theorem C20_directive_go (d : Str) (f : Fmt) (h : Directive d f) : GoOK f :=
   parseFormat_goOK d none none f h.1 h.2
 
 instance (d : Str) (f : Fmt) : Decidable (Directive d f) := by unfold Directive; infer_instance
+
+/-- what `unParse` writes (for `WithoutWidth` / `ReplaceFormatChar`) is read by fmt as the same letter, width and
+    precision — for every well-formed Format record -/
+theorem C20_unparse_go (f : Fmt) (h : FmtWF f) :
+    ∃ g, goParse ((unParse f).filter (fun c => !isDelim c)) = some g ∧ g.verb = f.letter ∧ g.wid = f.width ∧
+      g.prec = f.prec := goParse_unParse f h
+
+example : unParse (parsed "%#- [12.3g") = "% -#12.3g".toList ∧ unParse (withoutWidth (parsed "%#-<12.3g")) = "%<.3g".toList ∧
+    goFormat (withoutWidth (parsed "%#-<12.3g")) = "%.3g".toList := by decide +kernel
 
 example : Directive "%-#08.3x".toList
     { alt := true, left := true, zeroPad := true, letter := 'x', plus := none, prec := some 3, width := some 8,
